@@ -1093,17 +1093,17 @@ Section SortPerm.
   Qed.
 End SortPerm.
 
-Lemma register_all_perm : forall fs, Permutation (register_all fs) fs.
+Lemma register_all_perm : forall R fs, Permutation (register_all R fs) fs.
 Proof.
-  intros fs. unfold register_all.
-  assert (H : forall l acc, Permutation (fold_left register l acc) (acc ++ l)).
+  intros R fs. unfold register_all.
+  assert (H : forall l acc, Permutation (fold_left (register R) l acc) (acc ++ l)).
   { induction l as [|f l IH]; intros acc; cbn [fold_left].
     - rewrite app_nil_r. reflexivity.
     - rewrite IH. unfold register. rewrite stable_sort_perm. rewrite <- app_assoc. reflexivity. }
   apply (H fs []).
 Qed.
 
-Lemma register_all_in : forall fs f, In f (register_all fs) <-> In f fs.
+Lemma register_all_in : forall R fs f, In f (register_all R fs) <-> In f fs.
 Proof. intros. split; apply Permutation_in; [apply register_all_perm | symmetry; apply register_all_perm]. Qed.
 
 (* ---------------------------------------------------------------------------------------------- *)
